@@ -9,7 +9,9 @@
 //!             `timestep` at a time
 //!   generic : `timesteps` / `timesteps_sample` / `timesteps_measure` and both tempering drivers on real generic
 //!             `Qmc` samplers whose energy offset is non-zero (both signs; built with the `*_and_offset`
-//!             constructors and by `into_qmc`), against -<n>/beta + get_offset() from a manual `timestep` loop
+//!             constructors and by `into_qmc`; most of them through a mix of ACCEPTED and REJECTED constructor calls and
+//!             reused after a rejected call), against -<n>/beta + the DOCUMENTED offset (minus the smallest diagonal
+//!             entries of the accepted `_and_offset` calls) from a manual `timestep` loop; get_offset() must equal it
 //!   itime   : `imaginary_time_fold` on real samplers (length, states, serde snapshot unchanged)
 //!   edge    : excluded inputs, run once each (f = 0, f > T, s = 0)
 //! The oracle column is the documented cadence / average computed here from the mock's call log (or from
